@@ -5,7 +5,8 @@
 Require Extraction.
 Require Import ExtrOcamlBasic.
 From JsonSyntax Require Import Base.Prelude Base.Value Base.Unicode Model.Kind Spec.KindSpec
-  Model.Parser Model.EntryPoints Model.Compare Model.Object Model.CodeMapNav.
+  Model.Parser Model.EntryPoints Model.Compare Model.Object Model.CodeMapNav
+  Model.Printer Spec.Minimal Spec.Layout.
 
 Extraction Language OCaml.
 Set Extraction KeepSingleton.
@@ -32,4 +33,7 @@ Extraction "model.ml"
   im_contains_duplicate_keys
   (* navigation *)
   traverse traverse_leftover count_where value_volume get_fragment array_iter_mapped
-  object_iter_mapped get_mapped_entries_with_index try_from_json_at fragment_count.
+  object_iter_mapped get_mapped_entries_with_index try_from_json_at fragment_count
+  (* printer *)
+  print_with pretty compact inline pretty_print compact_print inline_print to_string
+  pre_compute_size string_literal printed_string_size ser_min layout_text layout.
